@@ -23,7 +23,7 @@ REDIRECTS = {
     "tpm2/RunCommand.c": ["-Dlongjmp=verif_longjmp"],
 }
 
-SAN_FLAGS = ["-g", "-O1", "-fsanitize=address,undefined", "-fno-sanitize-recover=undefined",
+SAN_FLAGS = ["-g", "-O1", "-fsanitize=address,undefined", "-fno-sanitize=alignment", "-fno-sanitize-recover=undefined",
              "-fno-omit-frame-pointer", "-fno-common"]
 PLAIN_FLAGS = ["-g", "-O1", "-fno-common"]
 
@@ -89,6 +89,7 @@ def build(plain=False, repo=REPO, quiet=False):
     """returns (dir, info). dir contains libtpms_san.a (or libtpms_plain.a)"""
     t0 = time.time()
     key = src_hash(repo)
+    key = hashlib.sha256((key + " ".join(SAN_FLAGS) + json.dumps(REDIRECTS, sort_keys=True)).encode()).hexdigest()[:16]
     kind = "plain" if plain else "san"
     d = os.path.join(CACHE, "build-%s-%s" % (kind, key))
     lib = os.path.join(d, "libtpms_%s.a" % kind)
